@@ -52,6 +52,12 @@ pub struct OracleState {
 	pub last_bump_rate: BTreeMap<(usize, [u8; 32]), u32>,
 	/// (node, chan) -> step at which a ChannelForceClosed{should_broadcast: true} update reached Watch
 	pub fc_update_step: BTreeMap<(usize, usize), u64>,
+	/// C11-2: (channel, sending node, payment hash) -> htlc ids of the update_add_htlc messages the
+	/// node put on the wire (each came with a commitment_signed: the peer may hold the HTLC)
+	pub adds_on_wire: BTreeMap<(usize, usize, [u8; 32]), BTreeSet<u64>>,
+	/// C11-2: (channel, node that offered the HTLC, htlc id) of every update_fail(_malformed)_htlc
+	/// and update_fulfill_htlc delivered to that node
+	pub removes_delivered: BTreeSet<(usize, usize, u64)>,
 }
 
 impl World {
@@ -74,6 +80,7 @@ impl World {
 			self.oracle.adds_emitted.entry((a.payment_hash.0, from)).or_default().push((a.amount_msat, a.cltv_expiry));
 			if let Some(ci) = self.chans.iter().position(|c| c.channel_id == a.channel_id) {
 				self.oracle.adds_by_chan.entry(ci).or_default().push((from, a.cltv_expiry));
+				self.oracle.adds_on_wire.entry((ci, from, a.payment_hash.0)).or_default().insert(a.htlc_id);
 			}
 			// C08-1: a node never forwards an HTLC that is about to expire (the sender of a payment
 			// may offer whatever it likes; retransmissions after a reconnect are not new decisions)
@@ -173,6 +180,17 @@ impl World {
 	}
 
 	pub fn observe_deliver(&mut self, _from: usize, to: usize, m: &WireMsg) {
+		let removed = match m {
+			WireMsg::Fail(f) => Some((f.channel_id, f.htlc_id)),
+			WireMsg::FailMalformed(f) => Some((f.channel_id, f.htlc_id)),
+			WireMsg::Fulfill(f) => Some((f.channel_id, f.htlc_id)),
+			_ => None,
+		};
+		if let Some((cid, id)) = removed {
+			if let Some(ci) = self.chans.iter().position(|c| c.channel_id == cid) {
+				self.oracle.removes_delivered.insert((ci, to, id));
+			}
+		}
 		if let WireMsg::Add(u) = m {
 			self.oracle
 				.adds_delivered
@@ -1092,6 +1110,45 @@ impl World {
 					n, pay, amount, fee, first_hops, p.total_msat, ctx
 				);
 				self.violate("C03", "C03-4 PaymentSent amount and fee", msg);
+			}
+		}
+	}
+
+	/// C11-2: a sender gives up on a path whose HTLC the first-hop peer may hold (the add went out
+	/// with a commitment_signed and the peer never removed it off chain) only once the transaction
+	/// that closed the channel is buried by ANTI_REORG_DELAY blocks - whether or not the node was
+	/// restarted in between.
+	pub fn oracle_on_path_failed_chain_depth(&mut self, n: usize, pay: usize, first_hop_scid: u64) {
+		let ci = match self.chans.iter().position(|c| c.scid == first_hop_scid && (c.a == n || c.b == n)) {
+			Some(c) => c,
+			None => return,
+		};
+		let hash = self.pays[pay].hash.0;
+		let ids = match self.oracle.adds_on_wire.get(&(ci, n, hash)) {
+			Some(i) => i.clone(),
+			None => return,
+		};
+		if ids.iter().any(|id| self.oracle.removes_delivered.contains(&(ci, n, *id))) {
+			return;
+		}
+		self.out.bump("oracle:C11-2 no on-chain conclusion before the anti-reorg depth");
+		let tip = self.chain.tip_height();
+		if let Some((h, tx)) = self.chain.confirmed_spender(&self.chans[ci].funding) {
+			let confs = tip + 1 - h;
+			if confs < 6 {
+				let txid = tx.compute_txid();
+				let restarted = self.nodes[n].incarnation > 0;
+				self.violate(
+					"C11",
+					"C11-2 HTLC failed on the strength of a transaction with fewer than 6 confirmations",
+					format!(
+						"node {} pay {}: PaymentPathFailed for the part sent over channel {} (HTLC on the wire, never removed off chain) while the transaction {} spending the funding output has {} confirmation(s) (height {}, tip {}){}",
+						n, pay, ci, txid, confs, h, tip,
+						if restarted { " [after a restart]" } else { "" }
+					),
+				);
+			} else {
+				self.out.bump("probe:path_failed_after_chain_resolution_at_depth");
 			}
 		}
 	}
